@@ -33,6 +33,10 @@ WHY = {
  "C20-b2": "value-level: order of swap-with-last deletions",
  "C20-c3": "ordering: a consistency check moved behind the block rewrite in SplitLabels (split endpoint, off by default); 'validate before the first store write' is not a shape the unchanged handlers share",
  "C20-d3": "WaitGroup balance: Add moved inside a condition while every queued item still calls Done; needs a count argument across a channel",
+ "C10-h1": "value-level: which slot MergeLabels reuses for an absent target (an off-by-one in a remembered position); the slot is a legal table position either way",
+ "C09-h1": "value-level: a term (x mod 8) dropped from the bit cursor of writeRLEs when a bounded request starts inside a sub-block",
+ "C08-h3": "value-level: the index-versus-voxels check of the supervoxel split compares sums instead of the kept and split sizes one by one",
+ "C15-h2": "value-level: a hand-written LZ4 literal run for tiny payloads omits the length-extension byte at exactly 15 bytes; a rule 'compressed bytes come from the library' would also reject a correct fast path",
  "C20-d4": "value-level: ascending instead of descending order of swap-with-last deletions",
 }
 by = collections.defaultdict(list)
